@@ -347,3 +347,134 @@ def run_job(binpath, base_args, seed, total_cases, repo, variant,
         os.unlink(os.path.join(outdir, f))
     os.rmdir(outdir)
     return agg
+
+
+# ---------------------------------------------------------------- libFuzzer
+def _fuzz_worker(binpath, worker, seed, runs, env, repo, outdir, corpus,
+                 timeout_s, unit_timeout, max_len, max_restarts=40):
+    """One libFuzzer process over a corpus directory shared by all workers,
+    restarted after every crash / slow unit until `runs` executions are done."""
+    res = WorkerResult()
+    done = 0
+    restarts = 0
+    cov = 0
+    while done < runs:
+        log = os.path.join(outdir, 'fuzz.%d.%d.log' % (worker, restarts))
+        art = os.path.join(outdir, 'art.%d.' % worker)
+        args = [binpath, '-runs=%d' % (runs - done), '-seed=%d' % (seed * 1000 + worker * 50 + restarts + 1),
+                '-max_len=%d' % max_len, '-timeout=%d' % unit_timeout,
+                '-rss_limit_mb=4096', '-print_final_stats=1', '-reload=1',
+                '-artifact_prefix=' + art, corpus]
+        with open(log, 'wb') as f:
+            try:
+                p = subprocess.run(args, stdout=f, stderr=subprocess.STDOUT,
+                                   env=env, timeout=timeout_s)
+                rc = p.returncode
+            except subprocess.TimeoutExpired:
+                res.inconclusive.append('fuzz worker %d: watchdog' % worker)
+                break
+        txt = open(log, 'rb').read().decode('utf-8', 'replace')
+        m = re.search(r'stat::number_of_executed_units:\s*(\d+)', txt)
+        n = int(m.group(1)) if m else 0
+        if not m:
+            # crashed before the final stats: last "#<n>" progress line
+            ms = re.findall(r'^#(\d+)\s', txt, re.M)
+            n = int(ms[-1]) if ms else 1
+        done += max(n, 1)
+        res.cases_run += n
+        for c in re.findall(r'cov: (\d+)', txt):
+            cov = max(cov, int(c))
+        if rc == 0:
+            break
+        restarts += 1
+        res.crashes += 1
+        artifact = None
+        ma = re.search(r'Test unit written to (\S+)', txt)
+        if ma:
+            artifact = ma.group(1)
+        if 'libFuzzer: timeout' in txt:
+            res.diags.append(dict(key='fuzz:slow-unit', detail='an input needed more than %d s (artifact %s)'
+                                  % (unit_timeout, artifact)))
+        elif 'libFuzzer: out-of-memory' in txt:
+            res.diags.append(dict(key='fuzz:rss-limit', detail='rss limit exceeded (artifact %s)' % artifact))
+        else:
+            key, summary = classify_crash(txt, repo, 'fuzz')
+            keep = None
+            if artifact and os.path.exists(artifact):
+                keep = artifact
+            res.viols.append(dict(key=key, detail=summary, case=-1, case_seed=None,
+                                  worker=worker, stderr=txt[-8000:], trace='',
+                                  artifact=keep))
+        if restarts > max_restarts:
+            res.inconclusive.append('fuzz worker %d: too many restarts' % worker)
+            break
+    res.extra.append(dict(cov=cov))
+    return res
+
+
+def run_fuzz_job(binpath, seed, total_runs, repo, nworkers=None,
+                 timeout_s=7200, unit_timeout=20, max_len=4096, seed_env=None,
+                 extra_env=None):
+    """libFuzzer job: total_runs executions spread over nworkers processes that
+    share one corpus directory (created empty, seeded by the target itself).
+    Returns the same aggregate as run_job; artifacts of violations are copied
+    to /verif/replay by the driver."""
+    nworkers = nworkers or NCPU
+    per = (total_runs + nworkers - 1) // nworkers
+    env = dict(os.environ)
+    env['ASAN_OPTIONS'] = ('abort_on_error=1:detect_leaks=0:symbolize=1:'
+                           'allocator_may_return_null=1:quarantine_size_mb=8')
+    if extra_env:
+        env.update(extra_env)
+    base = os.path.join(os.path.dirname(os.path.dirname(os.path.abspath(__file__))), 'build')
+    outdir = tempfile.mkdtemp(prefix='vfuzz.', dir=base)
+    corpus = os.path.join(outdir, 'corpus')
+    os.makedirs(corpus)
+    if seed_env:
+        env[seed_env] = corpus
+        # let one process write the seeds before the others start reading
+        subprocess.run([binpath, '-runs=0', corpus], env=env, stdout=subprocess.DEVNULL,
+                       stderr=subprocess.DEVNULL, timeout=600)
+    t0 = time.time()
+    with ThreadPoolExecutor(max_workers=nworkers) as ex:
+        futs = [ex.submit(_fuzz_worker, binpath, w, seed, per, env, repo, outdir,
+                          corpus, timeout_s, unit_timeout, max_len)
+                for w in range(nworkers)]
+        results = [f.result() for f in futs]
+    agg = dict(viol_counts={}, tsan_by_design={}, cases_run=0, nontrivial=0, distinct=0,
+               counters={}, samples=[], viols=[], diags=[], ubsan={}, inconclusive=[],
+               crashes=0, skipped=0, extra=[], wall_s=time.time() - t0)
+    cov = 0
+    for r in results:
+        agg['cases_run'] += r.cases_run
+        agg['crashes'] += r.crashes
+        agg['viols'] += r.viols
+        agg['diags'] += r.diags
+        agg['inconclusive'] += r.inconclusive
+        for e in r.extra:
+            cov = max(cov, e.get('cov', 0))
+    units = [f for f in os.listdir(corpus)]
+    agg['counters']['fuzz.executions'] = agg['cases_run']
+    agg['counters']['fuzz.coverage_edges'] = cov
+    agg['counters']['fuzz.corpus_units'] = len(units)
+    agg['counters']['fuzz.restarts'] = agg['crashes']
+    # distinct non-trivial = inputs that reached new coverage (kept in the corpus)
+    agg['distinct'] = len(units)
+    agg['nontrivial'] = len(units)
+    for u in sorted(units)[:3]:
+        b = open(os.path.join(corpus, u), 'rb').read(48)
+        agg['samples'].append('corpus unit %s: %s...' % (u[:12], b.hex()))
+    # keep artifacts of violations, drop the rest
+    keepdir = os.path.join(base, '..', 'replay')
+    os.makedirs(keepdir, exist_ok=True)
+    for v in agg['viols']:
+        a = v.get('artifact')
+        if a and os.path.exists(a):
+            dst = os.path.join(keepdir, 'fuzz-' + os.path.basename(a))
+            try:
+                os.replace(a, dst)
+                v['artifact'] = os.path.abspath(dst)
+            except OSError:
+                pass
+    subprocess.run(['rm', '-rf', outdir])
+    return agg
